@@ -7,6 +7,8 @@ from .common import TRUSTED, Ctx
 
 def check(rep):
     ctx = Ctx(rep)
+    if rep.tier == "thorough":
+        LR.validate_engine(ctx)
     LR.rule_lex_error_raises(ctx)
     ctx.check_error_anchors()
     GR.rule_accept_needs_end(ctx)
